@@ -403,6 +403,9 @@ func c06Specs(tier string) []*h.SeqSpec {
 						r.PushManifest(f.Items["I1"], "t1")
 						r.PushManifest(f.Items["I2"], "")
 					}
+					if store == "memdir" && os.Getenv("VERIF_C06_ALLMEMDIR") != "" {
+						w.Tags(repo, "") // known to the store from the start (a store that has not been asked for a repository does not collect it: C10's finding)
+					}
 					vrt.Advance(67*time.Second, false)
 				},
 				Ops:      ops,
